@@ -9,6 +9,13 @@ from .props import PROPS, NOT_BUILT
 ALL = ["C%02d" % i for i in range(1, 21)]
 
 
+def ready():
+    """properties whose check has been validated (silent on the unchanged tree over several seeds, fires on
+    seeded breaks); only these are claimed in MANIFEST.json"""
+    with open(os.path.join(VERIF, "vf", "ready.txt")) as f:
+        return [l.strip() for l in f if l.strip() and not l.startswith("#")]
+
+
 def hook_commits():
     try:
         out = subprocess.run(["git", "-C", "/repo", "log", "--format=%H %s"], stdout=subprocess.PIPE, text=True).stdout
@@ -19,8 +26,9 @@ def hook_commits():
 
 def main():
     checks = []
+    rdy = ready()
     for pid in ALL:
-        if pid not in PROPS:
+        if pid not in PROPS or pid not in rdy:
             continue
         p = PROPS[pid]
         checks.append({
@@ -35,7 +43,7 @@ def main():
             "technique": p["technique"],
         })
     na = [{"property_id": pid, "reason": NOT_BUILT.get(pid, "monitor not built yet (work in progress; see DESIGN.md section 3)")}
-          for pid in ALL if pid not in PROPS]
+          for pid in ALL if pid not in PROPS or pid not in rdy]
     m = {
         "version": 1,
         "setup_cmd": "./check --setup",
